@@ -7,7 +7,6 @@ package c05
 
 import (
 	"fmt"
-	"os"
 	"sort"
 	"strings"
 	"sync"
@@ -549,7 +548,7 @@ func TestCheck(t *testing.T) {
 	if unknown > int64(hist/20) {
 		r.Inconclusive(fmt.Sprintf("%d of %d porcupine checks timed out", unknown, hist))
 	}
-	os.Exit(r.Finish(300))
+	h.Exit(r.Finish(300))
 }
 
 type result struct {
